@@ -65,7 +65,7 @@ Exercised ==
   IF ev.name = "Init" THEN {} ELSE
   {c \in {"append_respond", "append_expiry", "agg_max", "agg_min", "agg_avg", "agg_negative", "below_threshold",
           "trim", "edit_shrink", "edit_grow", "edit_ok", "start_ok", "pause_ok", "auto_pause", "unauthorized",
-          "reject", "some_invalid", "create_ok"} :
+          "reject", "some_invalid", "create_ok", "svc_direct"} :
      CASE c = "append_respond" -> ev.name = "Respond" /\ Appending(pre, ev, st) # {}
        [] c = "append_expiry" -> ev.name = "EndBlock" /\ Appending(pre, ev, st) # {}
        [] c = "agg_max" -> AppendingBy("max") # {}
@@ -89,6 +89,7 @@ Exercised ==
                                   pre.ctx[pre.feeds[f].ctx].state = "running" /\ st.ctx[st.feeds[f].ctx].state = "paused"
        [] c = "unauthorized" -> ev.name \in {"StartFeed", "PauseFeed", "EditFeed"} /\ ~ev.ok
                                   /\ ev.feed \in DOMAIN pre.feeds /\ ev.who # pre.feeds[ev.feed].creator
+       [] c = "svc_direct" -> ev.name = "SvcDirect" /\ ev.feed \in DOMAIN pre.feeds
        [] c = "reject" -> ~ev.ok}
 Coverage == Exercised = {} \/ PrintT(<<"EXERCISED", Exercised>>)
 
